@@ -50,6 +50,10 @@ func (z *Zip) M__iter__() (Object, error) {
 }
 
 func (z *Zip) M__next__() (Object, error) {
+	if z.size == 0 {
+		// zip() of no iterables is empty
+		return nil, StopIteration
+	}
 	result := make(Tuple, z.size)
 	for i := 0; i < z.size; i++ {
 		value, err := Next(z.itTuple[i])
